@@ -1,40 +1,12 @@
 /-
 C11 (state part): order of `clean()` in the MQTT 3.1.1 client.
-`idAt m a j` = the j-th packet id handed out after id `a` (ids run 1..m cyclically); under in-order
-acks the unacknowledged ids are `idAt m last_puback 1 .. k`, and the rotation `clean()` performs at
-`last_puback + 1` lists exactly that sequence.
+Every stored publish carries the stamp of the moment it was (last) put on the wire; `clean()` sorts
+by that stamp. The wire view `unacked` is in send order and its stamps increase (`UnackedOK`), so
+the two lists coincide — whatever the order in which acknowledgements arrived.
 -/
 import Proofs.Lemmas.ClientMonC10
 namespace Client
 open Client.Spec
-
-/-- j-th id after `a` (1 ≤ j ≤ m + 1, a ≤ m) -/
-def idAt (m a j : Nat) : Nat :=
-  if a + j ≤ m then a + j else if a + j ≤ 2 * m then a + j - m else a + j - 2 * m
-
-/-- position of slot `i` in the rotation `drop (a+1) T ++ take (a+1) T` of a table of length `m+1` -/
-def posOf (m a i : Nat) : Nat := if a < i then i - a - 1 else i + m - a
-
-theorem posOf_idAt (m a j : Nat) (ha : a ≤ m) (hj1 : 1 ≤ j) (hj : j ≤ m) :
-    posOf m a (idAt m a j) = if a + j ≤ m then j - 1 else j := by
-  unfold posOf idAt
-  split <;> split <;> (try split) <;> omega
-
-theorem idAt_range (m a j : Nat) (ha : a ≤ m) (hj1 : 1 ≤ j) (hj : j ≤ m) : 1 ≤ idAt m a j ∧ idAt m a j ≤ m := by
-  unfold idAt
-  split <;> (try split) <;> omega
-
-theorem idAt_shift (m a j : Nat) (ha : a ≤ m) (hm : 1 ≤ m) (hj : j ≤ m) (hj1 : 1 ≤ j) :
-    idAt m (idAt m a 1) j = idAt m a (j + 1) := by
-  unfold idAt
-  repeat' split
-  all_goals omega
-
-theorem idAt_succ (m a j : Nat) (ha : a ≤ m) (hm : 1 ≤ m) (hj1 : 1 ≤ j) (hj : j ≤ m) :
-    idAt m a (j + 1) = if idAt m a j = m then 1 else idAt m a j + 1 := by
-  unfold idAt
-  repeat' split
-  all_goals omega
 
 /-! ### two lists sorted by the same strict order with the same elements are equal -/
 
@@ -75,150 +47,87 @@ theorem sorted_unique {α} (R : α → α → Prop) (irr : ∀ x, ¬ R x x) (tr 
         · subst h; exact absurd (p2.1 x hx) (irr x)
         · exact h
 
-/-! ### `clean()` lists the stored ids in rotation order -/
+/-! ### `sort_by_key` -/
 
-theorem slotIds_drop_sorted (T : List (Option Pub)) (k : Nat)
-    (h : ∀ (i : Nat) (p : Pub), T[i]? = some (some p) → p.pkid = i) :
-    (slotIds (T.drop k)).Pairwise (· < ·) ∧ ∀ x ∈ slotIds (T.drop k), k ≤ x ∧ x < T.length := by
-  have hs := slotIds_sorted (T.drop k) k (by
-    intro i p hp
-    rw [List.getElem?_drop] at hp
-    exact h _ p hp)
-  refine ⟨hs.1, fun x hx => ⟨hs.2 x hx, ?_⟩⟩
-  obtain ⟨p, hp, hpx⟩ := (mem_slotIds _ _).mp hx
-  obtain ⟨j, hj⟩ := List.mem_iff_getElem?.mp hp
-  rw [List.getElem?_drop] at hj
-  have := h _ p hj
-  have := getElem?_lt_of_some hj
-  omega
+theorem insertStamp_sorted (x : Nat × Pub) (l : List (Nat × Pub)) (h : l.Pairwise (fun a b => a.1 ≤ b.1)) :
+    (insertStamp x l).Pairwise (fun a b => a.1 ≤ b.1) := by
+  induction l with
+  | nil => simp [insertStamp]
+  | cons y ys ih =>
+    have p := List.pairwise_cons.mp h
+    unfold insertStamp
+    split
+    · rename_i hxy
+      refine List.pairwise_cons.mpr ⟨?_, h⟩
+      intro b hb
+      rcases List.mem_cons.mp hb with rfl | hb
+      · exact hxy
+      · exact Nat.le_trans hxy (p.1 b hb)
+    · rename_i hxy
+      refine List.pairwise_cons.mpr ⟨?_, ih p.2⟩
+      intro b hb
+      have := (insertStamp_perm x ys).subset hb
+      rcases List.mem_cons.mp this with rfl | hb'
+      · omega
+      · exact p.1 b hb'
 
-theorem slotIds_take_sorted (T : List (Option Pub)) (k : Nat)
-    (h : ∀ (i : Nat) (p : Pub), T[i]? = some (some p) → p.pkid = i) :
-    (slotIds (T.take k)).Pairwise (· < ·) ∧ ∀ x ∈ slotIds (T.take k), x < k := by
-  have hs := slotIds_sorted (T.take k) 0 (by
-    intro i p hp
-    rw [List.getElem?_take] at hp
-    split at hp
-    · simpa using h _ p hp
-    · simp at hp)
-  refine ⟨hs.1, fun x hx => ?_⟩
-  obtain ⟨p, hp, hpx⟩ := (mem_slotIds _ _).mp hx
-  obtain ⟨j, hj⟩ := List.mem_iff_getElem?.mp hp
-  rw [List.getElem?_take] at hj
-  split at hj
-  · have := h _ p hj; omega
-  · simp at hj
+theorem sortStamped_sorted (l : List (Nat × Pub)) : (sortStamped l).Pairwise (fun a b => a.1 ≤ b.1) := by
+  unfold sortStamped
+  induction l with
+  | nil => simp
+  | cons x l ih => exact insertStamp_sorted x _ ih
 
-/-- the ids `clean()` returns (v4) are ordered by their position in the rotation -/
-theorem cleanPubs_sorted {s : State} (hs : SInv s) (hv : s.ver = .v4) (m : Nat) (hm : s.outgoingPub.length = m + 1) :
-    (pubIds (cleanPubs s)).Pairwise (fun x y => posOf m s.lastPuback x < posOf m s.lastPuback y) := by
-  have hid : ∀ (i : Nat) (p : Pub), s.outgoingPub[i]? = some (some p) → p.pkid = i := fun i p hp => (hs.slotId i p hp).1
-  have hlp : s.lastPuback ≤ m := by have := hs.lastPuback; have := hs.lenPub; omega
-  unfold cleanPubs
-  rw [hv]
-  simp only
-  rw [pubIds_pubRequests, slotIds_append, List.pairwise_append]
-  obtain ⟨d1, d2⟩ := slotIds_drop_sorted s.outgoingPub (s.lastPuback + 1) hid
-  obtain ⟨t1, t2⟩ := slotIds_take_sorted s.outgoingPub (s.lastPuback + 1) hid
-  refine ⟨?_, ?_, ?_⟩
-  · apply (List.pairwise_iff_forall_sublist.mpr ?_)
-    intro a b hab
-    have hlt := List.pairwise_iff_forall_sublist.mp d1 hab
-    have ha := d2 a (hab.subset (by simp))
-    have hb := d2 b (hab.subset (by simp))
-    unfold posOf; split <;> split <;> omega
-  · apply (List.pairwise_iff_forall_sublist.mpr ?_)
-    intro a b hab
-    have hlt := List.pairwise_iff_forall_sublist.mp t1 hab
-    have ha := t2 a (hab.subset (by simp))
-    have hb := t2 b (hab.subset (by simp))
-    unfold posOf; split <;> split <;> omega
-  · intro a ha b hb
-    have ha' := d2 a ha
-    have hb' := t2 b hb
-    unfold posOf; split <;> split <;> omega
+theorem mem_stamped (pubs : List (Option Pub)) (ord : List Nat) (st : Nat) (p : Pub) :
+    (st, p) ∈ stamped pubs ord ↔ ∃ i : Nat, pubs[i]? = some (some p) ∧ ord[i]? = some st := by
+  unfold stamped
+  rw [List.mem_filterMap]
+  constructor
+  · rintro ⟨⟨o, n⟩, hmem, hf⟩
+    obtain ⟨i, hi⟩ := List.mem_iff_getElem?.mp hmem
+    rw [List.getElem?_zip_eq_some] at hi
+    cases o with
+    | none => simp at hf
+    | some q =>
+      simp only [Option.map_some, Option.some.injEq, Prod.mk.injEq] at hf
+      obtain ⟨rfl, rfl⟩ := hf
+      exact ⟨i, hi.1, hi.2⟩
+  · rintro ⟨i, h1, h2⟩
+    refine ⟨(some p, st), ?_, by simp⟩
+    exact List.mem_iff_getElem?.mpr ⟨i, by rw [List.getElem?_zip_eq_some]; exact ⟨h1, h2⟩⟩
 
+theorem lt_inj_of_pairwise {α} (f : α → Nat) (l : List α) (h : l.Pairwise (fun a b => f a < f b)) :
+    ∀ a ∈ l, ∀ b ∈ l, f a = f b → a = b := by
+  induction l with
+  | nil => intro a ha; simp at ha
+  | cons x l ih =>
+    have p := List.pairwise_cons.mp h
+    intro a ha b hb hab
+    rcases List.mem_cons.mp ha with ha1 | ha2
+    · rcases List.mem_cons.mp hb with hb1 | hb2
+      · rw [ha1, hb1]
+      · have := p.1 b hb2; rw [ha1] at hab; omega
+    · rcases List.mem_cons.mp hb with hb1 | hb2
+      · have := p.1 a ha2; rw [hb1] at hab; omega
+      · exact ih p.2 a ha2 b hb2 hab
 
-/-! ### the order invariant -/
-
-def idSeq (m a k : Nat) : List Nat := (List.range k).map (fun j => idAt m a (j + 1))
-
-theorem idSeq_succ (m a k : Nat) : idSeq m a (k + 1) = idSeq m a k ++ [idAt m a (k + 1)] := by
-  simp [idSeq, List.range_succ]
-
-theorem idSeq_tail (m a k : Nat) (ha : a ≤ m) (hm : 1 ≤ m) (hk : k + 1 ≤ m) :
-    (idSeq m a (k + 1)).tail = idSeq m (idAt m a 1) k := by
-  unfold idSeq
-  rw [List.range_succ_eq_map, List.map_cons, List.tail_cons, List.map_map]
-  apply List.map_congr_left
-  intro j hj
-  have hj' : j < k := List.mem_range.mp hj
-  simp only [Function.comp]
-  exact (idAt_shift m a (j + 1) ha hm (by omega) (by omega)).symm
-
-theorem idSeq_head (m a k : Nat) : (idSeq m a (k + 1)).head? = some (idAt m a 1) := by
-  simp [idSeq, List.range_succ_eq_map]
-
-theorem mem_idSeq (m a k x : Nat) : x ∈ idSeq m a k ↔ ∃ j, j < k ∧ x = idAt m a (j + 1) := by
-  simp [idSeq, eq_comm]
-
-theorem idAt_inj (m a i j : Nat) (ha : a ≤ m) (hi1 : 1 ≤ i) (hi : i ≤ m) (hj1 : 1 ≤ j) (hj : j ≤ m)
-    (h : idAt m a i = idAt m a j) : i = j := by
-  unfold idAt at h
-  repeat' split at h
-  all_goals omega
-
-theorem idSeq_sorted (m a k : Nat) (ha : a ≤ m) (hk : k ≤ m) :
-    (idSeq m a k).Pairwise (fun x y => posOf m a x < posOf m a y) := by
-  unfold idSeq
-  rw [List.pairwise_map]
-  apply List.Pairwise.imp_of_mem (R := (· < ·))
-  · intro i j hi hj hij
-    have hi' := List.mem_range.mp hi
-    have hj' := List.mem_range.mp hj
-    rw [posOf_idAt m a (i + 1) ha (by omega) (by omega), posOf_idAt m a (j + 1) ha (by omega) (by omega)]
-    split <;> split <;> omega
-  · exact List.pairwise_lt_range
-
-/-- order invariant of the v4 client under in-order acks (`U` = ghost `unacked`) -/
-structure OInv (l : LState) (U : List (Nat × Nat)) : Prop where
-  seq : U.map (·.1) ++ pubIds l.pending = idSeq l.st.maxInflight l.st.lastPuback (U.length + (pubIds l.pending).length)
-  klen : U.length + (pubIds l.pending).length ≤ l.st.maxInflight
-  lpLe : l.st.lastPuback ≤ l.st.maxInflight
-  nxt : nextPkidVal l.st = idAt l.st.maxInflight l.st.lastPuback (U.length + (pubIds l.pending).length + 1)
-  relEmpty : relCount l.st.outgoingRel = 0
-  cnt : l.st.inflight = occ l.st.outgoingPub
-  nocol : l.st.collision = none
-  pendPubs : ∀ r ∈ l.pending, ∃ p, r = Request.publish p
-  maxEq : l.st.outgoingPub.length = l.st.maxInflight + 1
-
-theorem OInv.new (max : Nat) (m : Bool) (h1 : 1 ≤ max) : OInv (LState.new .v4 max m) [] := by
-  refine ⟨by simp [LState.new, idSeq, pubIds], by simp [LState.new, pubIds], by simp [LState.new, State.new], ?_,
-    by simp [LState.new, State.new, relCount_replicate], by simp [LState.new, State.new, occ_replicate],
-    rfl, by intro r hr; simp [LState.new] at hr, by simp [LState.new, State.new]⟩
-  have : idAt max 0 1 = 1 := by unfold idAt; split <;> (try split) <;> omega
-  simp [LState.new, State.new, nextPkidVal, pubIds, this]
-
-/-- the claim: under the invariant `clean()` lists the unacknowledged publishes in send order -/
-theorem OInv.order {l : LState} {U : List (Nat × Nat)} (ho : OInv l U) (hv : l.st.ver = .v4) (hs : SInv l.st)
-    (hU : UnackedOK U l.st) :
-    pubIds (cleanPubs l.st) = U.map (·.1) ∧ pubTags (cleanPubs l.st) = U.map (·.2) := by
-  have hsorted := cleanPubs_sorted hs hv l.st.maxInflight ho.maxEq
-  have hkeys : U.map (·.1) = idSeq l.st.maxInflight l.st.lastPuback U.length := by
-    have h := congrArg (List.take U.length) ho.seq
-    rw [List.take_left' (by simp)] at h
-    rw [h]
-    unfold idSeq
-    rw [← List.map_take, List.take_range, Nat.min_eq_left (by omega)]
-  have hU_sorted : (U.map (·.1)).Pairwise (fun x y => posOf l.st.maxInflight l.st.lastPuback x < posOf l.st.maxInflight l.st.lastPuback y) := by
-    rw [hkeys]; exact idSeq_sorted _ _ _ ho.lpLe (by have := ho.klen; omega)
-  have hids : pubIds (cleanPubs l.st) = U.map (·.1) := by
-    apply sorted_unique (fun x y => posOf l.st.maxInflight l.st.lastPuback x < posOf l.st.maxInflight l.st.lastPuback y)
-      (fun x => Nat.lt_irrefl _) (fun x y z => Nat.lt_trans) _ _ hsorted hU_sorted
-    intro x
-    rw [mem_pubIds_cleanPubs l.st hs x, mem_keys_iff_occ hU x]
-  refine ⟨hids, ?_⟩
-  -- tags follow ids: both lists are images of the same stored publishes
+/-- the tags of a list of stored publishes follow their ids -/
+theorem tags_follow_ids (U : List (Nat × Nat)) (hnd : (U.map (·.1)).Nodup) (R : List Request)
+    (hR : ∀ r ∈ R, ∃ p, r = Request.publish p ∧ alookup U p.pkid = some p.tag) (hids : pubIds R = U.map (·.1)) :
+    pubTags R = U.map (·.2) := by
+  have hlook : ∀ (W : List (Nat × Nat)), (W.map (·.1)).Nodup → ∀ v ∈ W, alookup W v.1 = some v.2 := by
+    intro W
+    induction W with
+    | nil => intro _ v h; simp at h
+    | cons b W ihW =>
+      obtain ⟨b1, b2⟩ := b
+      intro hndW v hvW
+      simp only [List.map_cons, List.nodup_cons] at hndW
+      rcases List.mem_cons.mp hvW with rfl | hvW'
+      · simp [alookup]
+      · simp only [alookup]
+        have : b1 ≠ v.1 := by intro he; exact hndW.1 (by rw [he]; exact List.mem_map_of_mem hvW')
+        simp only [this, if_false]
+        exact ihW hndW.2 v hvW'
   have key : ∀ (R : List Request) (V : List (Nat × Nat)),
       (∀ r ∈ R, ∃ p, r = Request.publish p ∧ alookup U p.pkid = some p.tag) → V.map (·.1) = pubIds R →
       (∀ v ∈ V, alookup U v.1 = some v.2) → pubTags R = V.map (·.2) := by
@@ -228,367 +137,97 @@ theorem OInv.order {l : LState} {U : List (Nat × Nat)} (ho : OInv l U) (hv : l.
     | cons r R ih =>
       intro V hR hV hVl
       obtain ⟨p, rfl, hp⟩ := hR r (by simp)
+      have hcons : pubIds (.publish p :: R) = p.pkid :: pubIds R := by simp [pubIds]
       cases V with
       | nil => simp [pubIds] at hV
       | cons v V =>
-        simp only [pubIds_cons_publish, List.map_cons, List.cons.injEq] at hV
+        rw [hcons] at hV
+        simp only [List.map_cons, List.cons.injEq] at hV
         have hv := hVl v (by simp)
         rw [hV.1, hp] at hv
         simp only [pubTags, List.filterMap_cons, List.map_cons]
         have := ih V (fun r hr => hR r (List.mem_cons_of_mem _ hr)) hV.2 (fun v hv => hVl v (List.mem_cons_of_mem _ hv))
         simp only [pubTags] at this
         rw [this]; simp at hv; rw [hv]
-  apply key (cleanPubs l.st) U
+  exact key R U hR hids.symm (hlook U hnd)
+
+/-- the claim: `clean()` of the MQTT 3.1.1 client lists the unacknowledged publishes in the order
+    in which they were put on the wire -/
+theorem cleanPubs_order {s : State} (hs : SInv s) (hv : s.ver = .v4) {U : List (Nat × Nat)} (hU : UnackedOK U s) :
+    pubIds (cleanPubs s) = U.map (·.1) ∧ pubTags (cleanPubs s) = U.map (·.2) := by
+  -- what `clean()` computes
+  have hcp : cleanPubs s = (sortStamped (stamped s.outgoingPub s.outgoingOrder)).map (fun x => Request.publish x.2) := by
+    unfold cleanPubs; rw [hv]
+  have hidsL : pubIds (cleanPubs s) = (sortStamped (stamped s.outgoingPub s.outgoingOrder)).map (fun x => x.2.pkid) := by
+    rw [hcp]; unfold pubIds; rw [List.filterMap_map]
+    induction sortStamped (stamped s.outgoingPub s.outgoingOrder) with
+    | nil => rfl
+    | cons a l ih => simp [ih]
+  -- every element carries the stamp of the slot of its id
+  have hel : ∀ x ∈ sortStamped (stamped s.outgoingPub s.outgoingOrder), x.1 = ordAt s x.2.pkid := by
+    intro x hx
+    have hx' := (sortStamped_perm _).subset hx
+    obtain ⟨st, p⟩ := x
+    obtain ⟨i, h1, h2⟩ := (mem_stamped _ _ st p).mp hx'
+    have := (hs.slotId i p h1).1
+    simp only [ordAt, this, h2, Option.getD_some]
+  have hle : (pubIds (cleanPubs s)).Pairwise (fun i j => ordAt s i ≤ ordAt s j) := by
+    rw [hidsL, List.pairwise_map]
+    apply (sortStamped_sorted _).imp_of_mem
+    intro a b ha hb hab
+    rw [← hel a ha, ← hel b hb]; exact hab
+  -- stamps of distinct stored ids differ
+  have hinj := lt_inj_of_pairwise (fun e : Nat × Nat => ordAt s e.1) U hU.stamps
+  have hne : ∀ i j, occAt s i = true → occAt s j = true → i ≠ j → ordAt s i ≠ ordAt s j := by
+    intro i j hi hj hij heq
+    obtain ⟨a, ha, rfl⟩ := List.mem_map.mp ((mem_keys_iff_occ hU i).mpr hi)
+    obtain ⟨b, hb, rfl⟩ := List.mem_map.mp ((mem_keys_iff_occ hU j).mpr hj)
+    exact hij (by rw [hinj a ha b hb heq])
+  have hlt : (pubIds (cleanPubs s)).Pairwise (fun i j => ordAt s i < ordAt s j) := by
+    apply (hle.and (pubIds_cleanPubs_nodup hs)).imp_of_mem
+    intro i j hi hj hij
+    have := hne i j ((mem_pubIds_cleanPubs s hs i).mp hi) ((mem_pubIds_cleanPubs s hs j).mp hj) hij.2
+    omega
+  have hUlt : (U.map (·.1)).Pairwise (fun i j => ordAt s i < ordAt s j) := by
+    rw [List.pairwise_map]; exact hU.stamps
+  have hids : pubIds (cleanPubs s) = U.map (·.1) := by
+    apply sorted_unique (fun i j => ordAt s i < ordAt s j) (fun x => Nat.lt_irrefl _) (fun x y z => Nat.lt_trans) _ _ hlt hUlt
+    intro x
+    rw [mem_pubIds_cleanPubs s hs x, mem_keys_iff_occ hU x]
+  refine ⟨hids, tags_follow_ids U hU.nd (cleanPubs s) ?_ hids⟩
+  intro r hr
+  obtain ⟨p, rfl, hp⟩ := (mem_cleanPubs hs r).mp hr
+  obtain ⟨j, hj⟩ := List.mem_iff_getElem?.mp hp
+  have := (hs.slotId j p hj).1
+  refine ⟨p, rfl, ?_⟩
+  rw [hU.look, this]; simp [slotTag, hj]
+
+theorem filter_three {α} (f : α → Bool) (A B C : List α) (hA : ∀ r ∈ A, f r = true) (hB : ∀ r ∈ B, f r = false)
+    (hC : ∀ r ∈ C, f r = false) : (A ++ B ++ C).filter f = A := by
+  rw [List.filter_append, List.filter_append, List.filter_eq_self.mpr hA, List.filter_eq_nil_iff.mpr (by simpa using hB),
+    List.filter_eq_nil_iff.mpr (by simpa using hC)]
+  simp
+
+/-- the publishes of `clean()` that have been on the wire are the stored ones (the publish parked
+    on a collision comes back unnumbered) -/
+theorem sentPubs_cleanRequests {s : State} {pd : List Request} (h0 : Inv0 ⟨s, pd⟩) :
+    sentPubs (cleanRequests s) = cleanPubs s := by
+  have hs := h0.sinv
+  unfold sentPubs cleanRequests
+  apply filter_three
   · intro r hr
-    obtain ⟨p, rfl, hp⟩ := (mem_cleanPubs l.st r).mp hr
+    obtain ⟨p, rfl, hp⟩ := (mem_cleanPubs hs r).mp hr
     obtain ⟨j, hj⟩ := List.mem_iff_getElem?.mp hp
-    have := (hs.slotId j p hj).1
-    refine ⟨p, rfl, ?_⟩
-    rw [hU.look, this]; simp [slotTag, hj]
-  · exact hids.symm
-  · intro v hv
-    have hnd := hU.nd
-    clear hids hkeys hU_sorted hsorted
-    induction U with
-    | nil => simp at hv
-    | cons a U ih' =>
-      obtain ⟨a1, a2⟩ := a
-      simp only [List.map_cons, List.nodup_cons] at hnd
-      rcases List.mem_cons.mp hv with rfl | hv'
-      · simp [alookup]
-      · simp only [alookup]
-        have hne : a1 ≠ v.1 := by
-          intro he; exact hnd.1 (by rw [he]; exact List.mem_map_of_mem hv')
-        simp only [hne, if_false]
-        -- recursive call on the tail does not need the table coupling
-        have : ∀ (W : List (Nat × Nat)), (W.map (·.1)).Nodup → v ∈ W → alookup W v.1 = some v.2 := by
-          intro W
-          induction W with
-          | nil => intro _ h; simp at h
-          | cons b W ihW =>
-            obtain ⟨b1, b2⟩ := b
-            intro hndW hvW
-            simp only [List.map_cons, List.nodup_cons] at hndW
-            rcases List.mem_cons.mp hvW with rfl | hvW'
-            · simp [alookup]
-            · simp only [alookup]
-              have : b1 ≠ v.1 := by intro he; exact hndW.1 (by rw [he]; exact List.mem_map_of_mem hvW')
-              simp only [this, if_false]
-              exact ihW hndW.2 hvW'
-        exact this U hnd.2 hv'
-
-
-/-! ### the ghost's in-order flag -/
-
-theorem stepOut_inOrder (g : Ghost) (r : Request) (o : Outcome) :
-    (g.stepOut r o).inOrder = match r with
-      | .publish p => g.inOrder && decide (p.qos ≤ 1)
-      | .pubrel _ => false
-      | _ => g.inOrder := by
-  unfold Ghost.stepOut
-  cases r <;> simp only <;> (repeat' split) <;> simp_all
-
-def headIs (U : List (Nat × Nat)) (i : Nat) : Bool :=
-  match U with
-  | (j, _) :: _ => decide (j = i)
-  | [] => false
-
-theorem released_inOrder (g : Ghost) (p : Incoming) (o : Outcome) :
-    ((g.stepIn p).released o).inOrder = match p with
-      | .puback i _ => (match alookup g.unacked i with
-          | some _ => g.inOrder && headIs g.unacked i
-          | none => false)
-      | .pubrec _ _ => false
-      | .pubcomp _ _ => false
-      | _ => g.inOrder := by
-  have h1 : ∀ g' : Ghost, (g'.released o).inOrder = g'.inOrder := by
-    intro g'; unfold Ghost.released; (repeat' split) <;> rfl
-  rw [h1]
-  unfold Ghost.stepIn headIs
-  cases p <;> simp only <;> (repeat' split) <;> simp_all
-
-theorem OInv.congr {s s' : State} {pd : List Request} {U : List (Nat × Nat)} (h : OInv ⟨s, pd⟩ U)
-    (hc : s'.core = s.core) (hm : s'.maxInflight = s.maxInflight) : OInv ⟨s', pd⟩ U := by
-  obtain ⟨e1, e2, e3, e4, e5⟩ := core_eqs hc
-  have e6 : s'.lastPkid = s.lastPkid := congrArg Core.lastPkid hc
-  obtain ⟨a1, a2, a3, a4, a5, a6, a7, a8, a9⟩ := h
-  simp only at *
-  exact ⟨by rw [hm, e5]; exact a1, by rw [hm]; exact a2, by rw [hm, e5]; exact a3,
-    by rw [hm, e5]; unfold nextPkidVal at *; rw [e6]; exact a4, by rw [e2]; exact a5, by rw [e3, e1]; exact a6,
-    by rw [e4]; exact a7, a8, by rw [e1, hm]; exact a9⟩
-
-theorem maxInflight_v4 (s : State) (hv : s.ver = .v4) (p : Incoming) : (handleIncoming s p).1.maxInflight = s.maxInflight := by
-  rw [handleIncoming_maxInflight, hv]
-
-theorem user_maxInflight (s : State) (u : UserReq) : (handleOutgoing s u.toRequest).1.maxInflight = s.maxInflight :=
-  (user_frame s u).2.2.1
-
-/-- the invariant is kept by every step that keeps the ghost's in-order flag, as long as no
-    SUBSCRIBE/UNSUBSCRIBE consumes an id (#19) and no pending publish is dropped (#23) -/
-theorem OInv.lstep {l : LState} {g : Ghost} (hv : l.st.ver = .v4) (hb : B1 l g) (ho : OInv l g.unacked)
-    (op : LOp) (hn1 : ¬ subConsumesId l op) (hn2 : ¬ dropsPending l op) :
-    match (lstep l op).2 with
-    | none => OInv (lstep l op).1 g.unacked
-    | some o => (g.core o).inOrder = true → OInv (lstep l op).1 (g.core o).unacked := by
-  obtain ⟨s, pd⟩ := l
-  have h0 := hb.b0.inv0
-  have hU := hb.g1.unacked
-  have hgp := hb.b0.g0.pend
-  simp only at hv h0 hU hgp hn1 hn2
-  unfold Client.lstep
-  cases op with
-  | user u =>
-    by_cases hc : (pd.isEmpty && selectEnabled s pd) = true
-    · simp only [lop?, hc, if_true]
-      have hpd : pd = [] := by
-        simp only [Bool.and_eq_true, List.isEmpty_iff] at hc; exact hc.1
-      subst hpd
-      have hgt : selectEnabled s [] = true := by simpa using hc
-      have hout : (sstepObs s (.out u.toRequest)).outcome = (handleOutgoing s u.toRequest).2 := rfl
-      simp only [core_out, lpending, sstepSt, hout, stepOut_unacked, stepOut_inOrder]
-      intro hio
-      by_cases hu : ∃ q t, u = .publish q t
-      · obtain ⟨q, t, rfl⟩ := hu
-        simp only [UserReq.toRequest] at hio ⊢
-        by_cases hq : q = 0
-        · subst hq
-          rw [eff_publish_qos0]
-          simp only [unackedAfterOut, relPub, if_true]
-          exact ho.congr rfl rfl
-        · obtain ⟨hp, hv1, hv2, hv3⟩ := h0.nextPkid
-          rw [eff_publish_fresh s q t hq hp]
-          have hn := h0.nextPkidSt
-          have hcore := nextPkidSt_core s
-          have e1 : (nextPkidSt s).outgoingPub = s.outgoingPub := congrArg Core.pub hcore
-          have e2 : (nextPkidSt s).inflight = s.inflight := congrArg Core.inf hcore
-          have hup := h0.upLe; have hml := h0.maxLe; have hmp := h0.maxPos
-          have hgate : s.inflight < s.maxInflight := by simp [selectEnabled] at hgt; exact hgt.1
-          simp only at hup hml hmp
-          have hmx : (nextPkidSt s).maxInflight = s.maxInflight := (nextPkidSt_frame s).2.1
-          obtain ⟨a1, a2, a3, a4, a5, a6, a7, a8, a9⟩ := ho
-          simp only [pubIds, List.filterMap_nil, List.length_nil, Nat.add_zero, List.append_nil] at a1 a2 a3 a4 a5 a6 a7 a9
-          have hk : g.unacked.length < s.maxInflight := by rw [hU.len, ← a6]; exact hgate
-          -- the slot of the next id is free
-          have hfree : s.outgoingPub[nextPkidVal s]? = some none := by
-            rcases h0.slot_cases (nextPkidVal s) hv2 with hs | ⟨x, hs⟩
-            · exact hs
-            · exfalso
-              have hmem : nextPkidVal s ∈ g.unacked.map (·.1) := (mem_keys_iff_occ hU _).mpr ((occAt_iff s _).mpr ⟨x, hs⟩)
-              rw [a1, mem_idSeq] at hmem
-              obtain ⟨j, hj, hje⟩ := hmem
-              rw [a4] at hje
-              have := idAt_inj _ _ _ _ a3 (by omega) (by omega) (by omega) (by omega) hje
-              omega
-          rw [eff_publishWithId_store _ _ rfl (by rw [e1]; exact hfree) (by rw [e2]; omega)]
-          simp only [unackedAfterOut, relPub, hq, if_false]
-          have hlt := getElem?_lt_of_some hfree
-          refine ⟨?_, ?_, ?_, ?_, ?_, ?_, ?_, ?_, ?_⟩
-          all_goals simp only [drainEvents, State.pushOut, State.pushEv, pubIds, List.filterMap_nil, List.length_nil,
-            Nat.add_zero, List.append_nil, List.length_append, List.length_singleton, List.map_append, List.map_cons, List.map_nil]
-          · rw [hmx, idSeq_succ, a1, a4]
-            have : (nextPkidSt s).lastPuback = s.lastPuback := congrArg Core.lastPuback hcore
-            rw [this]
-          · rw [hmx]; omega
-          · have : (nextPkidSt s).lastPuback = s.lastPuback := congrArg Core.lastPuback hcore
-            rw [hmx, this]; exact a3
-          · have hlp : (nextPkidSt s).lastPuback = s.lastPuback := congrArg Core.lastPuback hcore
-            rw [hmx, hlp, idAt_succ _ _ _ a3 hmp (by omega) (by omega), ← a4]
-            unfold nextPkidVal nextPkidSt
-            by_cases hw : s.lastPkid + 1 = s.maxInflight <;> simp [hw]
-          · have : (nextPkidSt s).outgoingRel = s.outgoingRel := congrArg Core.rel hcore
-            rw [this]; exact a5
-          · rw [e2, e1, occ_set_some _ _ _ hfree, a6]
-          · have : (nextPkidSt s).collision = s.collision := congrArg Core.col hcore
-            rw [this]; exact a7
-          · intro r hr; simp at hr
-          · rw [e1, hmx, List.length_set]; exact a9
-      · have hu' : ∀ q t, u ≠ .publish q t := fun q t h => hu ⟨q, t, h⟩
-        have hup : unackedAfterOut g.unacked u.toRequest (handleOutgoing s u.toRequest).2 = g.unacked := by
-          cases u <;> first | rfl | exact absurd rfl (hu' _ _)
-        rw [hup]
-        -- SUBSCRIBE / UNSUBSCRIBE that consume an id are excluded; the rest leaves everything alone
-        cases u with
-        | publish q t => exact absurd rfl (hu' q t)
-        | subscribe n =>
-          by_cases hn0 : n = 0
-          · subst hn0
-            simp only [UserReq.toRequest, handleOutgoing, outgoingSubscribe, if_true]
-            exact ho.congr rfl rfl
-          · exact absurd ⟨hn0, rfl, hgt⟩ hn1
-        | unsubscribe => exact absurd ⟨rfl, hgt⟩ hn1
-        | disconnect => exact ho.congr rfl rfl
-        | puback i => exact ho.congr rfl rfl
-        | pubrec i => exact ho.congr rfl rfl
-    · simp only [lop?, hc]
-      exact ho
-  | pend =>
-    cases pd with
-    | nil => exact ho
-    | cons r rest =>
-      simp only [lop?]
-      have hout : (sstepObs s (.out r)).outcome = (handleOutgoing s r).2 := rfl
-      simp only [core_out, lpending, sstepSt, hout, stepOut_unacked, stepOut_inOrder, List.tail_cons]
-      obtain ⟨p, rfl⟩ := ho.pendPubs r (by simp)
-      intro hio
-      obtain ⟨hq, hp1, hp2, ha, hslot, hinf, hne⟩ := h0.pend_publish
-      rw [eff_publish_replay s p hq (by omega), eff_publishWithId_store s p ha hslot hinf]
-      simp only [unackedAfterOut, relPub, hq, if_false]
-      obtain ⟨a1, a2, a3, a4, a5, a6, a7, a8, a9⟩ := ho
-      simp only [pubIds_cons_publish, List.length_cons] at a1 a2 a3 a4 a5 a6 a7 a9
-      refine ⟨?_, ?_, ?_, ?_, ?_, ?_, ?_, ?_, ?_⟩
-      all_goals simp only [drainEvents, State.pushOut, State.pushEv, List.length_append, List.length_singleton,
-        List.map_append, List.map_cons, List.map_nil]
-      · rw [List.append_assoc, List.singleton_append, a1]; congr 1; omega
-      · omega
-      · exact a3
-      · unfold nextPkidVal at *; simp only; rw [a4]; congr 1; omega
-      · exact a5
-      · rw [occ_set_some _ _ _ hslot, a6]
-      · exact a7
-      · intro r hr; exact a8 r (List.mem_cons_of_mem _ hr)
-      · rw [List.length_set]; exact a9
-  | ping =>
-    simp only [lop?]
-    have hout : (sstepObs s (.out .pingreq)).outcome = (handleOutgoing s .pingreq).2 := rfl
-    simp only [core_out, lpending, sstepSt, hout, stepOut_unacked, stepOut_inOrder, unackedAfterOut]
-    intro _
-    exact ho.congr (by rw [core_drain, ping_core]) (by simp [drainEvents, (ping_frame s).2.2.2.1])
-  | inc p =>
-    simp only [lop?]
-    have hout : (sstepObs s (.inc p)).outcome = (handleIncoming s p).2 := rfl
-    simp only [core_inc, lpending, sstepSt, hout, released_unacked, released_inOrder]
-    have hmx := maxInflight_v4 s hv p
-    have hs0 := h0.sinv.pushEv (.incoming p)
-    simp only at hs0
-    by_cases hack : ∃ i r, p = .puback i r
-    · obtain ⟨i, r, rfl⟩ := hack
-      simp only [unackedAfterIn, ackedId]
-      intro hio
-      -- in-order flag kept: the ack is for the head of `unacked`
-      cases hU' : g.unacked with
-      | nil => rw [hU'] at hio; simp [alookup] at hio
-      | cons e U' =>
-        obtain ⟨j, t⟩ := e
-        rw [hU'] at hio
-        have hji : j = i := by
-          by_cases h : j = i
-          · exact h
-          · exfalso
-            simp only [alookup, headIs, h, if_false, decide_false, Bool.and_false] at hio
-            split at hio <;> simp at hio
-        subst hji
-        obtain ⟨a1, a2, a3, a4, a5, a6, a7, a8, a9⟩ := ho
-        rw [hU'] at a1 a2 a4 hU
-        simp only [List.map_cons, List.length_cons, List.cons_append] at a1 a2 a3 a4 a5 a6 a7 a9
-        have hslot : ∃ x, s.outgoingPub[j]? = some (some x) := by
-          have := hU.look j
-          simp only [alookup, if_true] at this
-          unfold slotTag at this
-          cases hs : s.outgoingPub[j]? with
-          | none => rw [hs] at this; simp at this
-          | some v =>
-            cases v with
-            | none => rw [hs] at this; simp at this
-            | some x => exact ⟨x, rfl⟩
-        obtain ⟨x, hx⟩ := hslot
-        have hk1 : U'.length + 1 + (pubIds pd).length = (U'.length + (pubIds pd).length) + 1 := by omega
-        rw [hk1] at a1 a4
-        have hhead : j = idAt s.maxInflight s.lastPuback 1 := by
-          have := congrArg List.head? a1
-          rw [idSeq_head] at this
-          simpa using this
-        have htail := congrArg List.tail a1
-        rw [List.tail_cons, idSeq_tail _ _ _ a3 h0.maxPos (by omega)] at htail
-        rw [handleIncoming_puback]
-        have he := handlePuback_eff hs0 j r
-        have hlk : (handlePuback (s.pushEv (.incoming (.puback j r))) j r).1.lastPkid = s.lastPkid :=
-          (incoming_frame s (.puback j r)).2.2.2
-        have hmx' : (handlePuback (s.pushEv (.incoming (.puback j r))) j r).1.maxInflight = s.maxInflight := hmx
-        generalize handlePuback (s.pushEv (.incoming (.puback j r))) j r = res at he hlk hmx'
-        cases he with
-        | oob s' h1 hc => exact absurd hx (by rw [show s.outgoingPub[j]? = none from h1]; simp)
-        | empty s' h1 hc => exact absurd hx (by rw [show s.outgoingPub[j]? = some none from h1]; simp)
-        | released s' x' c h1 hv' hcol hci hc => exact absurd (show s.collision = some c from hcol) (by rw [a7]; simp)
-        | freed s' x' h1 hnn hc =>
-          have e1 : s'.outgoingPub = s.outgoingPub.set j none := congrArg Core.pub hc
-          have e2 : s'.outgoingRel = s.outgoingRel := congrArg Core.rel hc
-          have e3 : s'.inflight = s.inflight - 1 := congrArg Core.inf hc
-          have e4 : s'.collision = s.collision := congrArg Core.col hc
-          have e5 : s'.lastPuback = j := by
-            have : s'.lastPuback = (if s.ver = Version.v4 then j else s.lastPuback) := congrArg Core.lastPuback hc
-            rw [this, if_pos hv]
-          simp only [relPub, aerase, if_true]
-          have hocc := occ_set_none _ _ _ hx
-          have hopos := occ_pos_of_slot _ _ _ hx
-          refine ⟨?_, ?_, ?_, ?_, ?_, ?_, ?_, ?_, ?_⟩
-          all_goals simp only [drainEvents]
-          · rw [hmx', e5, hhead]; exact htail
-          · rw [hmx']; omega
-          · rw [hmx', e5, hhead]; exact (idAt_range _ _ 1 a3 (by omega) h0.maxPos).2
-          · unfold nextPkidVal at a4 ⊢
-            simp only
-            rw [hlk, hmx', e5, a4, hhead]
-            exact (idAt_shift _ _ _ a3 h0.maxPos (by omega) (by omega)).symm
-          · rw [e2]; exact a5
-          · rw [e3, e1, a6]; omega
-          · rw [e4]; exact a7
-          · exact a8
-          · rw [e1, hmx', List.length_set]; exact a9
-    · by_cases hrec : ∃ i r, p = .pubrec i r
-      · obtain ⟨i, r, rfl⟩ := hrec; intro hio; simp at hio
-      · by_cases hcomp : ∃ i r, p = .pubcomp i r
-        · obtain ⟨i, r, rfl⟩ := hcomp; intro hio; simp at hio
-        · have hoe := otherIncoming_eff s p (fun i r h => hack ⟨i, r, h⟩) (fun i r h => hrec ⟨i, r, h⟩)
-            (fun i r h => hcomp ⟨i, r, h⟩)
-          have hid : ackedId p = none := by
-            cases p <;> first | rfl | exact absurd ⟨_, _, rfl⟩ hack | exact absurd ⟨_, _, rfl⟩ hrec
-          simp only [unackedAfterIn, hid]
-          rw [relPub_not_publish _ _ hoe.2.1]
-          intro _
-          exact ho.congr (by rw [core_drain, hoe.1]) (by simp [drainEvents, hmx])
-  | fail =>
-    simp only [lop?]
-    have hp := h0.sinv.cleanPanics
-    have hst : sstepSt s .clean = cleanState s := by simp [sstepSt, hp]
-    have hob : (sstepObs s .clean).cleaned = cleanRequests s := by simp [sstepObs, hp, mkObs]
-    simp only [core_clean g s hp, lpending, hst, hob, Bool.and_eq_true, List.isEmpty_iff]
-    intro hio
-    have hpd : pd = [] := by rw [← hgp]; exact hio.2
-    subst hpd
-    obtain ⟨oids, _⟩ := ho.order hv h0.sinv hU
-    obtain ⟨a1, a2, a3, a4, a5, a6, a7, a8, a9⟩ := ho
-    simp only [pubIds, List.filterMap_nil, List.length_nil, Nat.add_zero, List.append_nil] at a1 a2 a3 a4 a5 a6 a7 a9
-    have hrel : relOnes s = [] := by
-      have := length_relOnesFrom s.outgoingRel 0
-      rw [a5] at this
-      exact List.eq_nil_of_length_eq_zero this
-    have hcl : cleanRequests s = cleanPubs s := by simp [cleanRequests, hrel]
-    have hids : pubIds (cleanPubs s) = g.unacked.map (·.1) := oids
-    have hlen : (pubIds (cleanPubs s)).length = g.unacked.length := by rw [hids]; simp
-    refine ⟨?_, ?_, ?_, ?_, ?_, ?_, ?_, ?_, ?_⟩
-    all_goals simp only [List.nil_append, hcl, List.map_nil, List.length_nil, Nat.zero_add]
-    · rw [hlen, hids]; exact a1
-    · rw [hlen]; exact a2
-    · exact a3
-    · rw [hlen]; exact a4
-    · simp [cleanState, relCount_map_false]
-    · simp [cleanState, occ_map_none]
-    · exact a7
-    · intro r hr
-      obtain ⟨p, hp', _⟩ := (mem_cleanPubs s r).mp hr
-      exact ⟨p, hp'⟩
-    · simp only [cleanState, List.length_map]; exact a9
-  | newSession =>
-    simp only [lop?, core_drop, lpending, sstepSt]
-    intro _
-    have hpi : pubIds pd = [] := Classical.not_not.mp hn2
-    have hpd : pd = [] := by
-      cases pd with
-      | nil => rfl
-      | cons r rest =>
-        obtain ⟨p, rfl⟩ := ho.pendPubs r (by simp)
-        simp [pubIds] at hpi
-    subst hpd
-    exact ho
+    have h1 := (h0.slotLe j p hj).1
+    have h2 := (hs.slotId j p hj).1
+    simp only [bne_iff_ne, ne_eq]; omega
+  · intro r hr
+    obtain ⟨i, _, rfl⟩ := List.mem_map.mp hr
+    rfl
+  · intro r hr
+    unfold cleanParked at hr
+    cases hc : s.collision with
+    | none => rw [hc] at hr; simp at hr
+    | some c => rw [hc] at hr; simp at hr; subst hr; rfl
 
 end Client
